@@ -52,6 +52,26 @@ theorem plain_of_lit {n : Bytes} (h : LitName n) : ∀ c ∈ lit n, PlainChar c 
   obtain ⟨h0, h1, h2, h3⟩ := h c hc
   exact ⟨h0, h1, h2, h3, lit_no_colon n c hc⟩
 
+theorem matchPath_nil (msg : Bytes) : matchPath [] msg = if hd msg = 0 then .ok [] msg else .null := by
+  simp [matchPath, matchPathM]
+
+theorem matchPath_colon (t msg : Bytes) :
+    matchPath (COLON :: t) msg = if hd msg = 0 then .ok (COLON :: t) msg else .null := by
+  by_cases h : hd msg = 0 <;> simp [matchPath, matchPathM, h]
+
+/-- the step of `rtosc_match_path` on a plain pattern character -/
+theorem matchPath_plain {c : UInt8} (hc : PlainChar c) (pr msg : Bytes) :
+    matchPath (c :: pr) msg =
+      if c = SLASH ∧ hd msg = SLASH then
+        (if hd pr = 0 ∨ hd pr = COLON then .ok pr (msg.drop 1) else matchPath pr (msg.drop 1))
+      else if c = hd msg then
+        (if hd msg ≠ 0 then matchPath pr (msg.drop 1) else .ok (c :: pr) msg)
+      else .null := by
+  obtain ⟨_, c1, c2, c3, c4⟩ := hc
+  simp only [matchPath]
+  rw [matchPathM]
+  simp only [Bool.false_eq_true, false_and, ↓reduceIte, c4, c1, c2, c3]
+
 /-- Lemma A: a literal pattern never gives `unsupported`, and a match consumes the
     whole literal part -/
 theorem matchPath_lit (l : Bytes) : ∀ (tail msg : Bytes), (∀ c ∈ l, PlainChar c) → TailOK tail →
@@ -63,31 +83,23 @@ theorem matchPath_lit (l : Bytes) : ∀ (tail msg : Bytes), (∀ c ∈ l, PlainC
     intro tail msg _ ht hm
     rcases ht with rfl | ht
     · simp only [List.append_nil]
-      unfold matchPath
+      rw [matchPath_nil]
       split <;> simp
     · cases tail with
       | nil => simp [COLON] at ht
       | cons c t =>
         simp only [hd_cons] at ht
         subst ht
-        have hmsg : hd msg ≠ COLON := by
-          cases msg with
-          | nil => simp [COLON]
-          | cons m mr => simpa using (hm m List.mem_cons_self).1
         simp only [List.nil_append]
-        unfold matchPath
-        by_cases h0 : hd msg = 0
-        · simp [h0]
-        · have : ¬ (COLON = hd msg) := fun h => hmsg h.symm
-          simp [h0, COLON, SLASH] at this ⊢
-          simp [this]
+        rw [matchPath_colon]
+        split <;> simp
   | cons c l' ih =>
     intro tail msg hl ht hm
-    obtain ⟨c0, c1, c2, c3, c4⟩ := hl c List.mem_cons_self
+    have hc0 := hl c List.mem_cons_self
+    obtain ⟨c0, c1, c2, c3, c4⟩ := hc0
     have hl' : ∀ d ∈ l', PlainChar d := fun d hd => hl d (List.mem_cons_of_mem _ hd)
     simp only [List.cons_append]
-    unfold matchPath
-    simp only [c4, false_and, ↓reduceIte, c1, c2, c3]
+    rw [matchPath_plain (hl c List.mem_cons_self)]
     by_cases hs : c = SLASH ∧ hd msg = SLASH
     · obtain ⟨rfl, hms⟩ := hs
       cases msg with
@@ -137,21 +149,21 @@ theorem matchPath_self (l : Bytes) : ∀ (tail : Bytes), (∀ c ∈ l, PlainChar
   | nil =>
     intro tail _ ht
     rcases ht with rfl | ht
-    · exact ⟨[], by simp [matchPath]⟩
+    · exact ⟨[], by simp [matchPath_nil]⟩
     · cases tail with
-      | nil => exact ⟨[], by simp [matchPath]⟩
+      | nil => exact ⟨[], by simp [matchPath_nil]⟩
       | cons c t =>
         simp only [hd_cons] at ht
         subst ht
-        exact ⟨COLON :: t, by simp [matchPath]⟩
+        exact ⟨COLON :: t, by simp [matchPath_colon]⟩
   | cons c l' ih =>
     intro tail hl ht
     obtain ⟨c0, c1, c2, c3, c4⟩ := hl c List.mem_cons_self
     have hl' : ∀ d ∈ l', PlainChar d := fun d hd => hl d (List.mem_cons_of_mem _ hd)
     obtain ⟨p, hp⟩ := ih tail hl' ht
     simp only [List.cons_append]
-    unfold matchPath
-    simp only [c4, false_and, ↓reduceIte, c1, c2, c3, hd_cons, and_self]
+    rw [matchPath_plain (hl c List.mem_cons_self)]
+    simp only [hd_cons, and_self]
     by_cases hs : c = SLASH
     · subst hs
       simp only [↓reduceIte, List.drop_succ_cons, List.drop_zero]
@@ -174,6 +186,9 @@ theorem matchPath_self (l : Bytes) : ∀ (tail : Bytes), (∀ c ∈ l, PlainChar
 
 /-- Lemma B2: a literal name ending in `/` matches every path that starts with it and
     leaves the rest -/
+theorem plain_slash : PlainChar SLASH := by
+  refine ⟨?_, ?_, ?_, ?_, ?_⟩ <;> simp [SLASH, COLON]
+
 theorem matchPath_dir (l : Bytes) : ∀ (tail rest : Bytes), (∀ c ∈ l, PlainChar c) → TailOK tail →
     matchPath (l ++ SLASH :: tail) (l ++ SLASH :: rest) = .ok tail rest := by
   induction l with
@@ -184,11 +199,7 @@ theorem matchPath_dir (l : Bytes) : ∀ (tail rest : Bytes), (∀ c ∈ l, Plain
       · exact Or.inl rfl
       · exact Or.inr ht
     simp only [List.nil_append]
-    unfold matchPath
-    have e1 : ¬ (SLASH = COLON ∧ hd (SLASH :: rest) = 0) := by simp [SLASH, COLON]
-    have e2 : ¬ (SLASH = (123 : UInt8)) := by simp [SLASH]
-    have e3 : ¬ (SLASH = (42 : UInt8)) := by simp [SLASH]
-    rw [if_neg e1, if_neg e2, if_neg e3, if_pos ⟨rfl, rfl⟩]
+    rw [matchPath_plain plain_slash, if_pos ⟨rfl, rfl⟩]
     simp only [List.drop_succ_cons, List.drop_zero]
     rw [if_pos he]
   | cons c l' ih =>
@@ -202,8 +213,8 @@ theorem matchPath_dir (l : Bytes) : ∀ (tail rest : Bytes), (∀ c ∈ l, Plain
         obtain ⟨d0, _, _, _, d4⟩ := hl' d List.mem_cons_self
         simp [d0, d4]
     simp only [List.cons_append]
-    unfold matchPath
-    simp only [c4, false_and, ↓reduceIte, c1, c2, c3, hd_cons, and_self]
+    rw [matchPath_plain (hl c List.mem_cons_self)]
+    simp only [hd_cons, and_self]
     by_cases hs : c = SLASH
     · subst hs
       simp only [↓reduceIte, List.drop_succ_cons, List.drop_zero]
